@@ -32,7 +32,8 @@ WRONG12 = {
 }
 # kinds that only the chaos mode uses (the statement of C12 does not list them)
 WRONG13_EXTRA = {
-    "number": [("nested-list", [[1], [2, [3]]]), ("bool", True), ("empty-list", [])],
+    "number": [("nested-list", [[1], [2, [3]]]), ("bool", True), ("empty-list", []), ("inf-word", "inf"),
+               ("nan-word", "nan"), ("infinity-word", "Infinity"), ("huge-decimal", "$RAW:1" + "0" * 400 + ".0")],
     "numbers": [("nested-list", [[1, 2], [3]]), ("item-list", "$ITEM:[1]"), ("item-tuple", "$ITEM:{}")],
     "result": [("tuple", {"K": "v"}), ("nested-list", [["$REF"]]), ("float", 0.5)],
     "results": [("nested-list", [["$REF"]]), ("number", 3), ("item-list", "$ITEM:[$REF]")],
@@ -89,11 +90,18 @@ def build_matrix(extended=False):
         # the command exists, but not in the libraries selected for this program (an earlier program of the same
         # process selected them)
         cells.append({"kind": "unselected-library", "cmd": cmd})
+    # plug-in commands that subclass built-in ones (fuzziness by inheritance), and a sibling library that merely
+    # shares a name prefix with a selected one
+    for consumer in ("Sum", "Normalize", "CvtToFuzzy", "AMinusB"):
+        cells.append({"kind": "plugin-fuzzy-swap", "cmd": consumer, "plugin": True})
+    cells.append({"kind": "plugin-accepted", "cmd": "FuzzyNot", "plugin": True})
+    cells.append({"kind": "plugin-accepted", "cmd": "MySum", "plugin": True})
+    cells.append({"kind": "unselected-sibling-library", "cmd": "OnlyInX", "plugin": True})
     return cells
 
 
 MATRIX12 = build_matrix(False)
-MATRIX13 = build_matrix(True)
+MATRIX13 = [c for c in build_matrix(True) if not c.get("plugin")]
 
 
 # ------------------------------------------------------------------------------------------------
@@ -167,6 +175,8 @@ def concretise(rng, model, cell):
         def subst(v):
             if v == "$REF":
                 return ref
+            if isinstance(v, str) and v.startswith("$RAW:"):
+                return {"$raw": v[5:]}
             if isinstance(v, list):
                 return [subst(x) for x in v]
             return v
@@ -227,8 +237,8 @@ def apply_fault(nodes, fault):
                 return a[1]
         return None
 
-    if kind == "unselected-library":
-        pass
+    if kind in ("unselected-library", "unselected-sibling-library", "plugin-fuzzy-swap"):
+        pass      # the fault is in the model / library selection itself
     elif kind == "unknown-command":
         node["cmd"] = "NoSuchCommand"
     elif kind == "duplicate-result":
@@ -265,6 +275,10 @@ def expected_errors(fault):
         return [("CommandDoesNotExist", {"name": "NoSuchCommand"})]
     if k == "unselected-library":
         return [("CommandDoesNotExist", {"name": n}) for n in fault["names"]]
+    if k == "unselected-sibling-library":
+        return [("CommandDoesNotExist", {"name": "OnlyInX"})]
+    if k == "plugin-fuzzy-swap":
+        return [("ResultIsFuzzy", {"result": "pf"})]
     if k == "duplicate-result":
         return [("DuplicateResult", {"result": fault["target"]})]
     if k == "missing-param":
@@ -426,10 +440,52 @@ def _generate12_nc(rng, index, tier, cell):
     return sc
 
 
+PLUGIN_LIBS = ["mpilot.libraries.eems.basic", "mpilot.libraries.eems.csv", "mpilot.libraries.eems.fuzzy", "mpsim_plugins"]
+
+
+def _generate12_plugin(rng, index, tier, cell):
+    model = model_with(rng, "Sum", tier)
+    cmds = model["cmds"]
+    env = eems.run_model(model["table"], cmds)
+    fz = [c["name"] for c in cmds if c["name"] in env and env[c["name"]].fuzzy]
+    nf = [c["name"] for c in cmds if c["name"] in env and not env[c["name"]].fuzzy]
+    sinks = [c for c in cmds if c["cmd"] in ("EEMSWrite", "PrintVars")]
+    body = [c for c in cmds if c not in sinks]
+    body.append({"name": "pf", "cmd": "MyFuzzyOr", "args": {"InFieldNames": [rng.choice(fz) for _ in range(rng.randint(1, 3))]}})
+    kind = cell["kind"]
+    fault = None
+    if kind == "plugin-fuzzy-swap":
+        consumer = cell["cmd"]
+        args = {"Sum": {"InFieldNames": [rng.choice(nf), "pf"]}, "Normalize": {"InFieldName": "pf"},
+                "CvtToFuzzy": {"InFieldName": "pf", "TrueThreshold": 1, "FalseThreshold": 0},
+                "AMinusB": {"A": rng.choice(nf), "B": "pf"}}[consumer]
+        body.append({"name": "tgt2", "cmd": consumer, "args": args})
+        fault = {"kind": kind, "target": "tgt2", "cmd": consumer, "producer": "pf", "libraries": PLUGIN_LIBS}
+    elif kind == "plugin-accepted":
+        if cell["cmd"] == "FuzzyNot":
+            body.append({"name": "tgt2", "cmd": "FuzzyNot", "args": {"InFieldName": "pf"}})
+        else:
+            body.append({"name": "tgt2", "cmd": "MySum", "args": {"InFieldNames": [rng.choice(nf), rng.choice(nf)]}})
+    else:
+        body.append({"name": "tgt2", "cmd": "OnlyInX", "args": {"InFieldName": rng.choice(nf)}})
+        fault = {"kind": kind, "target": "tgt2", "cmd": "OnlyInX", "libraries": PLUGIN_LIBS}
+    model["cmds"] = body + sinks
+    sch = _common_schedule(rng, model, fault)
+    sch["layout"]["eol"] = "\n"
+    sc = {"engine": "modelsim", "prop": "C12", "mode": "fault12", "model": model, "fault": fault,
+          "cell": dict(cell), "route": "lib", "no_wd": False, "libraries": PLUGIN_LIBS,
+          "preload": "sibling-library" if kind == "unselected-sibling-library" else rng.choice([None, "sibling-library"]),
+          "rerun": rng.random() < 0.3}
+    sc.update(sch)
+    return sc
+
+
 def _generate12(rng, index, tier):
     cell = MATRIX12[index % len(MATRIX12)]
     if cell.get("config") == "netcdf":
         return _generate12_nc(rng, index, tier, cell)
+    if cell.get("plugin"):
+        return _generate12_plugin(rng, index, tier, cell)
     twin = rng.random() < 0.08
     fault = None
     for _ in range(20):
@@ -462,13 +518,21 @@ def _generate12(rng, index, tier):
     sc.update(sch)
     if sc["no_wd"] is False and fault and fault.get("no_wd"):
         sc["no_wd"] = False
+    if sc["fault"] and not sc["no_wd"] and sc["fault"].get("target") != "out" and sc["fault"].get("producer") != "out" \
+            and rng.random() < 0.2:
+        # the writer's OutFileName lies in a folder that does not exist yet: validating it must not create anything
+        for c in model["cmds"]:
+            if c["cmd"] == "EEMSWrite":
+                c["args"]["OutFileName"] = rng.choice(["fresh/out.csv", WORK + "/newdir/sub/out.csv"])
+        sc["new_out_dir"] = True
     return sc
 
 
 # ---- chaos (C13) -----------------------------------------------------------------------------------------
 TEXT_OPS = ("delete", "duplicate", "swap", "unbalance-open", "unbalance-close", "quote-open", "backslash-x",
             "backslash-u", "backslash-N", "backslash-end", "non-ascii", "nul", "strip-result", "garbage-char",
-            "number-exp", "v2-head", "colon-in-list", "empty-arglist")
+            "number-exp", "v2-head", "colon-in-list", "empty-arglist", "list-then-pair", "pair-then-list", "huge-int",
+            "v2-numeric-name", "deep-list")
 CSV_OPS = ("odd-field-name", "odd-field-name-missing", "empty", "header-only", "ragged-short", "ragged-long", "non-numeric", "missing-column", "dup-header",
            "truncated", "nul-bytes", "huge", "inf", "nan", "blank-first", "bom", "quoted-cell", "empty-cell")
 FS_OPS = (("open", "in", "ENOENT"), ("open", "in", "EACCES"), ("open", "in", "EMFILE"), ("open", "in", "EIO"),
@@ -590,6 +654,16 @@ def corrupt_text(text, f):
         toks[i] = "[a: b, c]"
     elif op == "empty-arglist":
         toks[i] = toks[i] + "\nZ = Sum()\n"
+    elif op == "list-then-pair":
+        toks[i] = toks[i] + '\nZZ = Copy(InFieldName = [b, "x": 1])\n'
+    elif op == "pair-then-list":
+        toks[i] = toks[i] + '\nZZ = Copy(InFieldName = ["x": 1, b, c])\n'
+    elif op == "huge-int":
+        toks[i] = toks[i] + "\nZZ = Copy(InFieldName = " + "9" * 5000 + ")\n"
+    elif op == "v2-numeric-name":
+        toks[i] = toks[i] + '\nREAD(InFileName = "in.csv", InFieldName = 2020)\nREAD(InFileName = "in.csv", InFieldName = c0)\n'
+    elif op == "deep-list":
+        toks[i] = toks[i] + "\nZZ = Sum(InFieldNames = " + "[" * 40 + "a" + "]" * 40 + ")\n"
     return "".join(toks)
 
 
@@ -915,7 +989,8 @@ def _execute12(sc):
     label = _fault_label(fault)
     with Hygiene():
         _preload(sc, log, res, csv)
-        libs = tuple(fault["libraries"]) if fault and fault.get("libraries") else None
+        libs = tuple(fault["libraries"]) if fault and fault.get("libraries") else (
+            tuple(sc["libraries"]) if sc.get("libraries") else None)
         out = run_once(sc, log, res, "lib", text, csv, [], [], [], libraries=libs)
         _judge12(sc, res, log, out, fault, label, paths, "lib")
         if sc.get("rerun") and fault and out.get("program") is not None and out["outcome"] == "raise":
@@ -962,6 +1037,9 @@ def _preload(sc, log, res, csv):
                 p.run()
         elif kind == "netcdf-program":
             Program(libraries=NC_LIBS)
+        elif kind == "sibling-library":
+            import importlib
+            importlib.import_module("mpsim_plugins_x")     # someone else in the process uses the sibling library
         res.probe("earlier in the process: " + kind)
     except Exception as exc:  # noqa
         res.observe("preload failed: %s" % type(exc).__name__)
